@@ -222,6 +222,7 @@ void run_case(Ctx& c) {
         req.headers.push_back({"PATH", name});
         req.payload = payload2;
         auto resp = server->roundtrip(req);
+        if (!resp.ok && server->timed_out()) { c.label("control_timeout_inconclusive"); return; }   // a stalled machine is not a verdict
         if (!resp.ok) c.fail("C31:harness-error", "no control response");
         if (resp.field("STATUS") == "OK") {
             c.label("control_store_ok");
